@@ -1,5 +1,4 @@
 SPECIFICATION Spec
-CONSTANT Scope = "paired"
-CONSTANT Decoder = "today"
+CONSTANT Decoder = "current"
 INVARIANT RoundTripHolds
 CHECK_DEADLOCK FALSE
